@@ -35,13 +35,15 @@ CONSTANTS
   NAs,         \* committee sizes explored (w.na \in NAs, na <= Len(ANodeSeq))
   Cids, COwner, Names,
   Probes,      \* probe subscriber contracts (harness/contracts/netmapsub)
+  IRSeq,       \* keys that may be designated as NeoFSAlphabet role ("I1".."Ik" in byte order of the keys)
   Registered,  \* registered NEO candidates
   CandLists,   \* candidate lists offered to alphabet.vote
   SignerSets, Amounts, Untils, Epochs, Fees,
+  Hints,       \* BOOLEAN: add state-dependent boundary values to the argument sets (simulation)
   Acts         \* enabled actions (bounded configurations switch groups off)
 
-Locks   == Range(LockSeq)
-ANodes  == Range(ANodeSeq)
+Locks   == Rng(LockSeq)
+ANodes  == Rng(ANodeSeq)
 Alphabet(na) == {ANodeSeq[i] : i \in 1..na}
 AllAcc  == Owners \cup Locks \cup ANodes
 Variants == {"a", "b", "c"}           \* a: with session token, b/c: token-less, creator keys kb / kc
@@ -148,7 +150,7 @@ T_EstPut(W, S, e, c) ==
 (* NNS record of the Netmap contract, contracts deployed later *)
 T_Repoint(W, S, t) == IF NRepointOk(S) THEN Ok([W EXCEPT !.ptr = t], <<>>) ELSE Fail(W)
 
-Bal2Deployed(W) == "bal2" \in Range(W.subs) \cup Range(W.subs2)
+Bal2Deployed(W) == "bal2" \in Rng(W.subs) \cup Rng(W.subs2)
 T_DeployLate(W, z) ==
   IF z = "az2"
   THEN IF W.azNm[z] # "none" THEN Fail(W) ELSE Ok([W EXCEPT !.azNm[z] = W.ptr], <<>>)
@@ -161,7 +163,14 @@ T_Vote(W, S, z, e, ks) ==
   IF W.azNm[z] = "none" \/ ~HasAlpha(S) \/ e # EpochOf(W, W.azNm[z]) \/ Len(ks) = 0 THEN Fail(W)
   ELSE Ok([W EXCEPT !.voted = AVote(@, z, AzIdx(z), ks, Registered)], <<>>)
 
+(* native RoleManagement as Netmap.innerRingList / Alphabet.emit read it: designateAsRole(NeoFSAlphabet, keys) by the
+   committee; the stored list is sorted by key; an empty list is refused *)
+T_Designate(W, S, ks) ==
+  IF ~HasCmt(S) \/ Len(ks) = 0 THEN Fail(W)
+  ELSE Ok([W EXCEPT !.irl = SelectSeq(IRSeq, LAMBDA k : k \in Rng(ks))], <<>>)
+
 -----------------------------------------------------------------------------
+Designate(S, ks)          == Commit(Event("designate", S, Nil, Nil, Nil, Nil, Nil, 0, 0, ks), T_Designate(w, S, ks))
 Mint(S, o, amt)           == Commit(Event("mint", S, o, Nil, Nil, Nil, Nil, amt, 0, <<>>), T_Mint(w, S, o, amt))
 Burn(S, a, amt)           == Commit(Event("burn", S, a, Nil, Nil, Nil, Nil, amt, 0, <<>>), T_Burn(w, S, a, amt))
 Lock(S, o, l, amt, until) == Commit(Event("lock", S, o, l, Nil, Nil, Nil, amt, until, <<>>), T_Lock(w, S, o, l, amt, until))
@@ -188,17 +197,20 @@ InitW(na) ==
    idk |-> [o \in Owners |-> {}], journal |-> <<>>, rej |-> {},
    azNm |-> [z \in {"az", "az2"} |-> IF z = "az" THEN "nm1" ELSE "none"],
    voted |-> [z \in {"az", "az2"} |-> Nil],
+   irl |-> <<>>,         \* netmap.innerRingList() = the designated NeoFSAlphabet keys
    others |-> "d0"]      \* digest class of the storages of Reputation, Audit and Proxy (bystanders)
 
 Init == /\ \E na \in NAs : w = InitW(na)
         /\ ev = Event("init", {}, Nil, Nil, Nil, Nil, Nil, 0, 0, <<>>)
 
 \* amounts at the boundary of the holder's balance / of the charge are always among the candidates
-Hint(a) == {w.acc[a].bal, w.acc[a].bal + 1}
-NeedHint == {(w.fee + w.afee) * w.na, w.fee * w.na, w.fee * w.na - 1} \cap Nat
-EHint == {w.epoch, w.epoch + 1, w.epoch + 5}
+Hint(a) == IF Hints THEN {w.acc[a].bal, w.acc[a].bal + 1} ELSE {}
+NeedHint == IF Hints THEN {(w.fee + w.afee) * w.na, w.fee * w.na, w.fee * w.na - 1} \cap Nat ELSE {}
+EHint == IF Hints THEN {w.epoch, w.epoch + 1, w.epoch + 5} ELSE {}
 On(a) == a \in Acts
 
+IRLists == ({<<>>} \cup {<<k>> : k \in Rng(IRSeq)} \cup {<<k1, k2>> : k1 \in Rng(IRSeq), k2 \in Rng(IRSeq)})
+             \ {<<k, k>> : k \in Rng(IRSeq)}
 \* P(X) = X for exhaustive checking, P(X) = {RandomElement(X)} for scenario generation
 NextOf(P(_), PS(_)) ==
   \/ On("mint") /\ \E S \in PS(SignerSets), o \in P(Owners) : \E m \in P(Amounts \cup NeedHint) : Mint(S, o, m)
@@ -218,6 +230,7 @@ NextOf(P(_), PS(_)) ==
   \/ On("estPut") /\ \E S \in PS(SignerSets \cup {{"K1"}}), e \in P(Epochs \cup EHint), c \in P(Cids) : EstPut(S, e, c)
   \/ On("repoint") /\ \E S \in PS(SignerSets), t \in P({"nm1", "nm2"}) : Repoint(S, t)
   \/ On("deployLate") /\ \E z \in P({"az2", "bal2"}) : DeployLate(z)
+  \/ On("designate") /\ \E S \in PS(SignerSets), ks \in P(IRLists) : Designate(S, ks)
   \/ On("vote") /\ \E S \in PS(SignerSets), z \in P({"az", "az2"}), e \in P(Epochs \cup {w.epoch, w.epoch2}), ks \in P(CandLists) :
         Vote(S, z, e, ks)
 
@@ -232,8 +245,8 @@ Spec == Init /\ [][Next]_vars
 Halt(e)   == e.res = "HALT"
 Bals(A)   == [a \in AllAcc |-> A[a].bal]
 Total(A)  == SumOver(Bals(A), AllAcc)
-NoDup(s)  == Cardinality(Range(s)) = Len(s)
-IsPrefix(s, t) == Len(s) <= Len(t) /\ \A i \in 1..Len(s) : s[i] = t[i]
+NoDup(s)  == Cardinality(Rng(s)) = Len(s)
+PrefixOf(s, t) == Len(s) <= Len(t) /\ \A i \in 1..Len(s) : s[i] = t[i]
 Added(s, t) == SubSeq(t, Len(s) + 1, Len(t))      \* what t adds to its prefix s
 ProbeSubs(subs) == SelectSeq(subs, LAMBDA s : s \in Probes)
 
@@ -265,12 +278,13 @@ Touch(act) ==
     [] act = "repoint"    -> {"ptr"}
     [] act = "deployLate" -> {"azNm", "subs", "subs2"}
     [] act = "vote"       -> {"voted"}
+    [] act = "designate"  -> {"irl"}
     [] OTHER -> {}
 X01_Frame(e) == \A f \in DOMAIN w : w'[f] # w[f] => f \in Touch(e.act)
 
 \* ---- C. epoch tick (priority 1) ----
 IsTick(e) == e.act = "tick" /\ Halt(e)
-Subscribed(s) == s \in Range(w.subs)
+Subscribed(s) == s \in Rng(w.subs)
 Expiring(A, x) == {l \in Locks : A[l].ex /\ A[l].parent # Nil /\ x >= A[l].until}
 Swept(est, x) == {q \in est : x - q.e <= TotalCleanupDelta}
 
@@ -280,7 +294,7 @@ X01_TickEpoch(e) ==
     /\ w'.epoch = e.x
     /\ \A i \in 1..Len(e.xfer) : e.xfer[i].k = "unlock" /\ e.xfer[i].x = e.x
     /\ Subscribed("cn") => w'.est = Swept(w.est, e.x)
-    /\ IsPrefix(w.journal, w'.journal) /\ \A i \in 1..Len(w'.journal) : i > Len(w.journal) => w'.journal[i].e = e.x
+    /\ PrefixOf(w.journal, w'.journal) /\ \A i \in 1..Len(w'.journal) : i > Len(w.journal) => w'.journal[i].e = e.x
 
 \* the effects of ALL subscribers are present
 X01_TickAll(e) ==
@@ -296,7 +310,7 @@ X01_TickAll(e) ==
 
 \* order of effects = subscription order; a contract subscribed twice is called once
 X01_TickOrder(e) ==
-  IsTick(e) => /\ IsPrefix(w.journal, w'.journal)
+  IsTick(e) => /\ PrefixOf(w.journal, w'.journal)
                /\ Added(w.journal, w'.journal) = [i \in 1..Len(ProbeSubs(w.subs)) |-> [s |-> ProbeSubs(w.subs)[i], e |-> e.x]]
 
 \* if ANY subscriber faults NOTHING of the tick is visible in ANY contract
@@ -311,8 +325,8 @@ X01_EpochOwner(e) ==
 \* subscription list: ordered, append-only, duplicate-free
 X01_SubOnce(e) ==
   /\ NoDup(w.subs) => NoDup(w'.subs)
-  /\ IsPrefix(w.subs, w'.subs)
-  /\ e.act = "sub" /\ Halt(e) => HasAlpha(e.S) /\ w'.subs = IF e.a \in Range(w.subs) THEN w.subs ELSE Append(w.subs, e.a)
+  /\ PrefixOf(w.subs, w'.subs)
+  /\ e.act = "sub" /\ Halt(e) => HasAlpha(e.S) /\ w'.subs = IF e.a \in Rng(w.subs) THEN w.subs ELSE Append(w.subs, e.a)
 
 \* ---- D. fee flow of container creation (priority 2) ----
 IsPut(e) == e.act = "put" /\ Halt(e)
@@ -383,11 +397,16 @@ X01_LockMoves(e) ==
      /\ w'.acc[e.a].bal = w.acc[e.a].bal - e.amt
      /\ \A a \in AllAcc \ {e.a, e.b} : w'.acc[a] = w.acc[a]
 
+\* Netmap.innerRingList follows the designated role (read at call time, nothing stored in Netmap)
+X01_InnerRing(e) ==
+  /\ e.act = "designate" /\ Halt(e) => HasCmt(e.S) /\ Rng(w'.irl) = Rng(e.ks) /\ Len(w'.irl) = Cardinality(Rng(e.ks))
+  /\ w'.irl # w.irl => e.act = "designate" /\ Halt(e)
+
 X01_All(e) ==
   /\ X01_SupplyIsSum /\ X01_NoNegative /\ X01_SupplyDelta(e) /\ X01_FaultInert(e) /\ X01_Frame(e)
   /\ X01_TickEpoch(e) /\ X01_TickAll(e) /\ X01_TickOrder(e) /\ X01_TickRejected(e) /\ X01_TickGuard(e)
   /\ X01_EpochOwner(e) /\ X01_SubOnce(e)
   /\ X01_PutCharge(e) /\ X01_PutRegisters(e) /\ X01_PutRefused(e)
   /\ X01_Repoint(e) /\ X01_LateFollows(e) /\ X01_Vote(e)
-  /\ X01_LockStays(e) /\ X01_NoEarly(e) /\ X01_LockMoves(e)
+  /\ X01_LockStays(e) /\ X01_NoEarly(e) /\ X01_LockMoves(e) /\ X01_InnerRing(e)
 =============================================================================
